@@ -352,6 +352,21 @@ func (r *sessRunner) history(n int, h sessHist) []sessEvent {
 		return p, ev
 	}
 	src := h.Src
+	if src == "ass" {
+		src = "ssa"
+	}
+	// every second history whose operations depend on the shape of the list takes a document with touching
+	// same-text cues / cues out of order / overlapping cues
+	shaped := false
+	for _, op := range h.Ops {
+		switch op.Name {
+		case "unfragment", "order", "fragment", "merge":
+			shaped = true
+		}
+	}
+	if shaped && n%2 == 0 && len(r.docs[src+"-synth"]) > 0 {
+		src += "-synth"
+	}
 	if h.Ign && len(r.docs["stl-tcp"]) > 0 {
 		src = "stl-tcp" // STL documents whose programme start is not zero: the option makes a difference
 	}
@@ -506,6 +521,35 @@ func (r *sessRunner) history(n int, h sessHist) []sessEvent {
 	return evs
 }
 
+// synthDocs: lists whose shape matters to the operations (touching same-text cues, cues out of order, overlapping
+// and nested cues), written in every writable format by the library's own writers. Instants are multiples of 40 ms.
+func synthDocs() []doc {
+	mk := func(cs [][3]interface{}) *astisub.Subtitles {
+		s := astisub.NewSubtitles()
+		for _, c := range cs {
+			s.Items = append(s.Items, &astisub.Item{StartAt: dur(c[0].(int)), EndAt: dur(c[1].(int)),
+				Lines: []astisub.Line{{Items: []astisub.LineItem{{Text: c[2].(string)}}}}})
+		}
+		return s
+	}
+	lists := map[string]*astisub.Subtitles{
+		"touch": mk([][3]interface{}{{0, 1000, "same"}, {1000, 2000, "same"}, {2000, 3000, "other"}, {3520, 4000, "other"}, {4000, 5000, "same"}, {5000, 5480, "same"}}),
+		"order": mk([][3]interface{}{{5000, 7000, "b"}, {1000, 3000, "a"}, {2000, 4000, "c"}, {1000, 2000, "d"}, {1000, 2000, "a"}}),
+		"nest":  mk([][3]interface{}{{0, 9000, "outer"}, {1000, 3000, "inner"}, {1000, 3000, "inner"}, {2960, 4000, "inner"}}),
+	}
+	var out []doc
+	names := []string{"nest", "order", "touch"}
+	for _, name := range names {
+		for _, f := range writeFormats {
+			var b bytes.Buffer
+			if err := writeDoc(f, lists[name], &b); err == nil {
+				out = append(out, doc{Name: "synth-" + name + "." + f, Fmt: f, Data: b.Bytes()})
+			}
+		}
+	}
+	return out
+}
+
 func cmdSession(args []string) error {
 	fs := flag.NewFlagSet("session", flag.ExitOnError)
 	in := fs.String("cases", "", "histories ndjson")
@@ -531,6 +575,9 @@ func cmdSession(args []string) error {
 				r.docs["stl-tcp"] = append(r.docs["stl-tcp"], d)
 			}
 		}
+	}
+	for _, d := range synthDocs() {
+		r.docs[d.Fmt+"-synth"] = append(r.docs[d.Fmt+"-synth"], d)
 	}
 	tmp, err := ioutil.TempDir("", "verif-session")
 	if err != nil {
